@@ -224,17 +224,28 @@ def run_case(sh, s, d, case):
             nodes[k]['edges'].append(('weak', 'direct', t))
             nonstrong += 1
     xobjs = []
+    xmarkers = []
     if xdb:
         c2 = c.get_connection('two')
         for k in sorted(stored_k):
             if rnd.random() < 0.2 and nodes[k]['kind'] in ('cell', 'args', 'dyn'):
-                xo = objs.Cell('XDB%dx%dXYZ' % (s % 100000, k))
+                # the target's class has / has not constructor arguments, or goes missing before the load
+                xkind = rnd.choice(['cell', 'cell', 'args', 'args', 'dyn'])
+                xm = 'XDB%dx%dXYZ' % (s % 100000, k)
+                xo = objs.Cell(xm) if xkind == 'cell' else objs.ArgsCell(xm) if xkind == 'args' else Dyn(xm)
                 c2.add(xo)
-                real[k].refs['x'] = xo
+                xform = rnd.choice(['direct', 'direct', 'list', 'dict'])
+                real[k].refs['x'] = wrap(xform, xo)
                 real[k]._p_changed = True
-                nodes[k]['edges'].append(('xdb', 'direct', len(xobjs)))
+                nodes[k]['edges'].append(('xdb', xform, len(xobjs)))
                 xobjs.append(xo)
+                xmarkers.append(xm)
+                sh.note('xdb_target_kinds', xkind)
                 nonstrong += 1
+                if rnd.random() < 0.3:
+                    real[k].refs['xw'] = persistent.wref.WeakRef(xo)
+                    nodes[k]['edges'].append(('xweak', 'direct', len(xobjs) - 1))
+                    nonstrong += 1
     tm.commit()
     sh.count('weak_or_xdb_refs', nonstrong)
     oid_of = {k: real[k]._p_oid for k in range(N)}
@@ -285,7 +296,7 @@ def run_case(sh, s, d, case):
         allrefs = objs.decode_record(data)[2]
         nweak = sum(1 for r in allrefs if r.fmt in ('w', 'wdb'))
         nx = sum(1 for r in allrefs if r.fmt in ('m', 'n'))
-        if nweak != sum(1 for (ek, f, t) in nodes[k]['edges'] if ek == 'weak') or nx != sum(1 for (ek, f, t) in nodes[k]['edges'] if ek == 'xdb'):
+        if nweak != sum(1 for (ek, f, t) in nodes[k]['edges'] if ek in ('weak', 'xweak')) or nx != sum(1 for (ek, f, t) in nodes[k]['edges'] if ek == 'xdb'):
             sh.violation('c14:weak-or-cross-database-reference-count-differs', dict(wit, node=k, weak=nweak, xdb=nx), case)
             return None
     # ---- isomorphism in a second connection (class of 'dyn' nodes deleted first on some runs)
@@ -334,7 +345,10 @@ def run_case(sh, s, d, case):
                 out.append(('weak', v.oid))
             elif isinstance(v, persistent.Persistent):
                 if v._p_jar is not cb:
-                    out.append(('xdb', v._p_oid))
+                    # the foreign object itself: right database, right state
+                    v._p_activate()
+                    out.append(('xdb', v._p_oid, v._p_jar.db().database_name,
+                                v.__Broken_state__['payload'] if isinstance(v, Broken) else v.payload))
                 else:
                     out.append(('strong', v._p_oid))
             elif isinstance(v, (list, tuple, set, frozenset)):
@@ -362,7 +376,8 @@ def run_case(sh, s, d, case):
             sh.violation('c14:loaded-payload-differs', dict(wit, node=k), case)
             return None
         got = sorted(edges_of(o, nd['kind']))
-        exp = sorted((ek, oid_of[t]) if ek != 'xdb' else ('xdb', xobjs[t]._p_oid) for (ek, f, t) in nd['edges'])
+        exp = sorted((ek, oid_of[t]) if ek not in ('xdb', 'xweak') else ('weak', xobjs[t]._p_oid) if ek == 'xweak'
+                     else ('xdb', xobjs[t]._p_oid, 'two', xmarkers[t]) for (ek, f, t) in nd['edges'])
         if got != exp:
             sh.violation('c14:loaded-edges-differ-from-stored-graph', dict(wit, node=k, got=got, model=exp), case)
             return None
